@@ -96,7 +96,7 @@ def main():
     if "--gen4" in sys.argv:
         out = subprocess.run([os.path.join(VERIF, "bin/mutgen4"), REPO], capture_output=True, text=True).stdout
     else:
-        out = subprocess.run([os.path.join(VERIF, "bin/mutgen"), REPO] + (["-gen2"] if gen2 else []) + (["-gen3"] if gen3 else []), capture_output=True, text=True).stdout
+        out = subprocess.run([os.path.join(VERIF, "bin/mutgen"), REPO] + (["-gen2"] if gen2 else []) + (["-gen3"] if gen3 else []) + (["-gen5"] if "--gen5" in sys.argv else []), capture_output=True, text=True).stdout
     muts = [json.loads(l) for l in out.splitlines() if l.strip()]
     if only: muts = [m for m in muts if only in m["file"] or only in m["func"]]
     if recheck:
